@@ -32,6 +32,83 @@ func runC09(c *Ctx, r *Report) {
 	r.Doc("R-C09.7", "the fetch that rebuilds the log cannot stall or give up with hashes still queued: worker accounting, slot release before the mutex, re-checked condition waits")
 	importRules(c, r, "C11", []string{"R-C11.1", "R-C11.2", "R-C11.6"}, "R-C09.7")
 	r.Doc("R-C09.8", "the entry reader refuses a block only when reading or decoding it failed: no extra acceptance test on the decoded entry (whatever Append wrote must load again)")
+	// the heads of the rebuilt log: fetched entries whose hash equals a manifest head
+	{
+		fm := p.FuncI("", "", "fromMultihash")
+		// the local that ends up in Snapshot.Heads
+		var headsObj types.Object
+		walkNoLit(fm.Body, func(n ast.Node) bool {
+			if kv, ok := n.(*ast.KeyValueExpr); ok {
+				if k, ok := kv.Key.(*ast.Ident); ok && k.Name == "Heads" {
+					if id, ok := ast.Unparen(kv.Value).(*ast.Ident); ok {
+						headsObj = p.ObjOf(fm, id)
+					}
+				}
+			}
+			return true
+		})
+		key := r.Key("R-C09.2", fm, "heads-selection", "")
+		nsel := 0
+		bad := ""
+		if headsObj != nil {
+			walkNoLit(fm.Body, func(n ast.Node) bool {
+				as, ok := n.(*ast.AssignStmt)
+				if !ok || len(as.Lhs) != 1 || len(as.Rhs) != 1 {
+					return true
+				}
+				id, ok := ast.Unparen(as.Lhs[0]).(*ast.Ident)
+				if !ok || p.ObjOf(fm, id) != headsObj {
+					return true
+				}
+				call, ok := ast.Unparen(as.Rhs[0]).(*ast.CallExpr)
+				if !ok || p.Builtin(fm, call) != "append" {
+					return true
+				}
+				nsel++
+				// innermost guard: an equality (==, or an Equals call) on the taken branch
+				var guard *ast.IfStmt
+				var child ast.Node = as
+				for cur := p.parent[ast.Node(as)]; cur != nil && cur != ast.Node(fm.Body); cur = p.parent[cur] {
+					if ifs, ok := cur.(*ast.IfStmt); ok {
+						guard = ifs
+						break
+					}
+					child = cur
+				}
+				okg := false
+				if guard != nil && insideNode(p, child, guard.Body) {
+					switch c := ast.Unparen(guard.Cond).(type) {
+					case *ast.BinaryExpr:
+						okg = c.Op == token.EQL
+					case *ast.CallExpr:
+						if se, ok := ast.Unparen(c.Fun).(*ast.SelectorExpr); ok && se.Sel.Name == "Equals" {
+							okg = true
+						}
+					case *ast.Ident:
+						// the found-flag of a lookup in a set built from the manifest heads
+						if ia, ok := guard.Init.(*ast.AssignStmt); ok && len(ia.Lhs) == 2 && len(ia.Rhs) == 1 {
+							if okid, ok := ia.Lhs[1].(*ast.Ident); ok && okid.Name == c.Name {
+								switch ast.Unparen(ia.Rhs[0]).(type) {
+								case *ast.IndexExpr, *ast.CallExpr:
+									okg = true
+								}
+							}
+						}
+					}
+				}
+				if !okg {
+					bad = p.Pos(as.Pos())
+				}
+				if ls := enclosingLoops(p, fm, as); len(ls) < 1 {
+					bad = p.Pos(as.Pos()) + " (not inside a scan of the fetched entries against the manifest heads)"
+				}
+				return true
+			})
+		}
+		r.Check(headsObj != nil && nsel > 0 && bad == "", "R-C09.2", key, fm.Body.Pos(),
+			"the rebuilt log's heads are the fetched entries whose hash equals a manifest head",
+			"fromMultihash does not select as heads exactly the fetched entries whose hash equals a manifest head (selection at "+bad+" is not guarded by that equality): the rebuilt log starts from other heads than the published ones")
+	}
 	r.Doc("R-C09.9", "loaders and constructors examine every error result (manifest read, manifest decode, codec construction) before going on")
 	r.Doc("R-C09.10", "the loops that publish the heads, select the loaded heads and queue links process every element")
 	loopsComplete(c, r, "R-C09.10", func(fn *Fn) bool { return rootNamed(fn, "ToJSONLog", "entrySliceToCids", "fromMultihash", "fromEntryHash", "fromJSON", "fromEntry", "NewFromMultihash", "addHashesToQueue", "addNextEntry", "NewOrderedMapFromEntries") }, "heads or links after the point where the loop stops are not published, loaded or fetched: the rebuilt log lacks part of the history")
